@@ -17,6 +17,7 @@ FUNCTIONS = [
     "rdflib.plugins.serializers.nt._quote_encode", "rdflib.plugins.serializers.nt._quoteLiteral",
     "rdflib.plugins.parsers.ntriples.unquote", "rdflib.compat.decodeUnicodeEscape",
     "rdflib.plugins.parsers.notation3.SinkParser.strconst / uEscape / UEscape",
+    "rdflib.plugins.parsers.rdfxml.RDFXMLHandler.startElementNS / endElementNS / characters (language scoping)",
 ]
 STUBS = ["SinkParser is instantiated without a sink (strconst only reads self.lines/_thisDoc)",
          "_quoteLiteral is driven with a str-subclass recorder carrying language/datatype attributes",
@@ -241,6 +242,10 @@ def obligations(tier, seed):
                             family="k-ttl-reader", desc={"escape": esc, "delim": delim, "tail": " ."},
                             sig=[("a", "s"), ("b", "s")], pre=["len(a) <= %d" % m, "len(b) <= %d" % m],
                             budget=300 if tier == "quick" else 1500))
+    for present in ([1, 0, 0], [1, 0, 1], [1, 1, 0], [0, 1, 1], [1, 1, 1], [0, 0, 1], [0, 0, 0]):
+        obs.append(dict(oid="K/rdfxml-lang/%s" % "".join(map(str, present)), family="k-rdfxml-lang", desc={"present": present},
+                        sig=[("l0", "s"), ("l1", "s"), ("l2", "s")], pre=["len(l0) <= 1", "len(l1) <= 1", "len(l2) <= 1"],
+                        budget=400))
     return obs
 
 
@@ -252,7 +257,9 @@ def bounds(tier):
             "k-nt-reader / k-ttl-reader": "ntriples.unquote and SinkParser.strconst (4 quoting styles) vs a grammar-derived decoder on "
                                           "a <escape> b with a, b symbolic strings of length <= %d and %d enumerated escapes"
                                           % (1 if tier == "quick" else 2, 8 if tier == "quick" else len(kern.ESCAPES)),
-            "outside": "statement-level grammar (prefixes, base, ; , [] (), comments, relative IRIs), RDF/XML, JSON-LD, TriG graph blocks, "
+            "k-rdfxml-lang": "RDFXMLHandler driven with the SAX events of a three-level document; xml:lang presence by shape, values symbolic "
+                             "strings (length <= 1 over ab, incl. the empty string that resets the language)",
+            "outside": "statement-level grammar (prefixes, base, ; , [] (), comments, relative IRIs), the rest of RDF/XML, JSON-LD, TriG graph blocks, "
                        "input source kinds, longer strings"}
 
 
